@@ -291,7 +291,37 @@ def make_body(shard):
   return body
 
 
+DENSE_X = [1.3333333333333333, 1.0, 2.0, 2.5, 0.1, 1e15, 3.0, 5e-324, 0.75, 2.0 ** 52, 1.9999999999999998]
+
+
+def make_dense_body(count):
+  """adversarially dense neighbourhoods: two existing rows g ulps apart (g <= 4), optionally a third row just below or far
+  below / above, and a batch of `count` rows requested at the upper row, the lower row, in between or alternating"""
+  def body(h):
+    x = DENSE_X[h.int("x", 0, len(DENSE_X))]
+    g = h.int("gap", 1, 5)
+    existing = [x, ulps(x, g)]
+    third = h.choice("third", ["none", "1ulp_below", "far_below", "1ulp_above", "far_above"])
+    if third != "none":
+      existing.append({"1ulp_below": ulps(x, -1), "far_below": x / 2 - 1, "1ulp_above": ulps(x, g + 1), "far_above": x * 2 + 1}[third])
+    if len(set(existing)) != len(existing) or any(math.isinf(v) or v != v for v in existing):
+      return {"nontrivial": False}
+    where = h.choice("where", ["upper", "lower", "between", "alternate"])
+    hi, lo = ulps(x, g), x
+    mid = ulps(x, g // 2) if g > 1 else hi
+    keys = {"upper": [hi] * count, "lower": [lo] * count, "between": [mid] * count,
+            "alternate": [hi if i % 2 == 0 else lo for i in range(count)]}[where]
+    msg = judge_inserts(existing, keys)
+    wt = {"existing": [v.hex() for v in existing], "keys": [v.hex() for v in keys]}
+    return {"nontrivial": True, "violations": ([{"msg": msg, "witness": wt}] if msg else []), "sample": {"existing": existing, "keys": [repr(k) for k in keys]}}
+  return body
+
+
 def _run_shard(shard, seed, max_s):
+  if shard[0] == "dense":
+    res = enumz3.allsat(make_dense_body(shard[1]), seed=seed, max_s=max_s)
+    return {"shard": shard, "runs": res.runs, "exhaustive": res.exhaustive, "solver_s": res.solver_s, "queries": res.queries,
+            "nontrivial": res.nontrivial, "outputs": res.outputs, "errors": res.errors, "samples": res.samples}
   res = enumz3.allsat(make_body(shard), seed=seed, max_s=max_s)
   return {"shard": shard, "runs": res.runs, "exhaustive": res.exhaustive, "solver_s": res.solver_s, "queries": res.queries,
           "nontrivial": res.nontrivial, "outputs": res.outputs, "errors": res.errors, "samples": res.samples}
@@ -340,6 +370,8 @@ def run(pid, tier, seed):
   shapes = [(ne, nk) for ne in (0, 1, 2, 3) for nk in (1, 2)] if tier == "quick" else [(ne, nk) for ne in (0, 1, 2, 3) for nk in (1, 2, 3)]
   for sh in shapes:
     tasks.append(("ins", sh, seed, 60.0 if tier == "quick" else 600.0))
+  for count in (range(1, 7) if tier == "quick" else range(1, 13)):
+    tasks.append(("ins", ("dense", count), seed, 60.0 if tier == "quick" else 600.0))
   for fx in ("basic", "views"):
     for k in ("UpdateRecord", "BulkUpdateRecord", "AddRecord", "BulkAddRecord", "RemoveRecord", "AddTable", "Summary"):
       tasks.append(("bundle", fx, k, "small" if tier == "quick" else "full"))
@@ -403,6 +435,8 @@ def run(pid, tier, seed):
     "exhaustive": False,
     "bounds": {"lemmas": "all finite doubles 0 <= s < e (count 1; count 2 in thorough)", "prepare_inserts": "existing <= 3 rows from %r (+) 0..2 ulps, distinct, finite, positive, < 2^53; "
                "keys <= 2 (3 thorough) from %r (+) 0..2 ulps" % (EXIST_CAT, [repr(x) for x in CAT]),
+               "dense neighbourhoods": "two existing rows 1..4 ulps apart at %r (+ optional third row), batches of 1..6 (12 thorough) rows requested at the "
+                                       "upper / lower / middle position or alternating" % (DENSE_X,),
                "outside": "lists longer than 3; the 64-binade loop of _find_sparse_enough_range is not encoded symbolically"},
   })
   if not ev.cov["samples"]:
